@@ -119,14 +119,22 @@ namespace c18
   template<typename Mat_> Index max_row_len(const Mat_& A) { Index m = 0; for(Index i = 0; i < A.rows(); ++i) m = std::max(m, Index(A.row_ptr()[i + 1] - A.row_ptr()[i])); return m; }
 
   /// coarse vector classes: 0 zero, 1 unit vector, 2 small integers, 3 dyadic, 4 scaled reals in +-[1e-3,1e3]
+  // The tape supplies at most 32 values which are tiled over the vector with alternating sign: short tapes keep
+  // rapidcheck's element-wise shrinking affordable (every tape entry costs ~30 re-evaluations of a failing case).
   template<typename DT_>
   LAFEM::DenseVector<DT_, Index> gen_vector(Tape& t, Index n, int cls, J& js, const char* key)
   {
     LAFEM::DenseVector<DT_, Index> v(n, DT_(0));
+    if(n == 0) return v;
     J a = J::arr();
-    if(cls == 1 && n > 0) { Index j = Index(t.range(0, int(n) - 1)); v(j, DT_(1)); js.set(std::string(key) + "-unit", (long long)j); return v; }
-    if(cls >= 2) for(Index i = 0; i < n; ++i) { double x = t.real(cls == 2 ? 0 : cls == 3 ? 1 : 2); v(i, DT_(x)); if(i < 24) a.add(double(DT_(x))); }
-    if(cls >= 2 && n > 0) js.set(key, a);
+    if(cls == 1) { Index j = Index(t.range(0, int(n) - 1)); v(j, DT_(1)); js.set(std::string(key) + "-unit", (long long)j); return v; }
+    if(cls >= 2)
+    {
+      double base[32]; const Index nb = std::min<Index>(n, 32);
+      for(Index i = 0; i < nb; ++i) { base[i] = t.real(cls == 2 ? 0 : cls == 3 ? 1 : 2); a.add(double(DT_(base[i]))); }
+      for(Index i = 0; i < n; ++i) v(i, DT_(((i / 32) & 1) ? -base[i % 32] : base[i % 32]));
+      js.set(key, a);
+    }
     return v;
   }
   inline const char* vcls_name(int c) { static const char* n[] = {"zero", "unit", "int", "dyadic", "real"}; return n[c]; }
@@ -281,6 +289,9 @@ namespace c18
     for(int a = 0; a <= pdeg; ++a) for(int b = 0; a + b <= pdeg; ++b) for(int d3 = 0; a + b + d3 <= pdeg; ++d3)
     { if(dim == 2 && d3 > 0) continue; mono.push_back({a, b, d3}); coef.push_back(op == op_poly || !em.nested ? t.real(0) : 0.0); }
     if(op == op_poly || (!em.nested && (op == op_trunc))) { bool any = false; for(double x : coef) if(x != 0.0) any = true; if(!any) coef[0] = 1.0; J cj(coef); vj.set("poly", cj); vj.set("pdeg", pdeg); }
+    // known finding c18-intermesh-vector: transfer_intermesh_vector never clears its per-source-cell point lists;
+    // with the switch on, the inter-mesh op still checks the matrix assembly but leaves out the vector transfer
+    const bool skip_imv = (op == op_intermesh) && c.excl("c18-intermesh-vector");
     int nthreads = 1; if(op == op_intermesh) { nthreads = 1 + t.range(0, 3); c.desc.set("threads", nthreads); c.label("threads:" + std::to_string(nthreads)); }
     c.desc.set("data", vj); c.desc.set("ndofs", J(std::vector<long long>{(long long)ndc, (long long)ndf}));
     bool vnz = false; for(Index i = 0; i < vc.size(); ++i) if(vc(i) != DT_(0)) vnz = true;
@@ -446,6 +457,7 @@ namespace c18
         else { Vec w(ndf, DT_(0)); failed = Assembly::GridTransfer::assemble_intermesh_transfer(M, w, sf, sc, f2c, icub); w.component_invert(w); M.scale_rows(M, w); }
         VF_CHECK(failed == 0, "intermesh: " << failed << " cubature points could not be unmapped (threads " << nt << ")");
         tv = Vec(ndf, DT_(0)); Vec w(ndf, DT_(0));
+        if(skip_imv) return;
         failed = Assembly::GridTransfer::transfer_intermesh_vector(tv, w, vc, sf, sc, f2c, icub);
         VF_CHECK(failed == 0, "intermesh: vector transfer failed to unmap " << failed << " points");
         w.component_invert(w); tv.component_product(tv, w);
@@ -461,13 +473,13 @@ namespace c18
         VF_CHECK(std::fabs((long double)M1.val()[k] - (long double)P.val()[k]) <= tolm, "intermesh: entry (" << i << "," << P.col_ind()[k] << ") " << (double)M1.val()[k] << " vs prolongation " << (double)P.val()[k]);
       std::vector<long double> ref, aref; ref_apply(M1, vc, ref, aref);
       const long double vmax = max_abs_v(vc);
-      for(Index i = 0; i < ndf; ++i) VF_CHECK(std::fabs((long double)t1(i) - ref[i]) <= 8.0L * 64.0L * (long double)(max_row_len(P) + 3) * (eps / 2) * (aref[i] + pmax * vmax) + 1e-300L, "intermesh: vector transfer [" << i << "]=" << (double)t1(i) << " vs matrix " << (double)ref[i]);
+      if(!skip_imv) for(Index i = 0; i < ndf; ++i) VF_CHECK(std::fabs((long double)t1(i) - ref[i]) <= 8.0L * 64.0L * (long double)(max_row_len(P) + 3) * (eps / 2) * (aref[i] + pmax * vmax) + 1e-300L, "intermesh: vector transfer [" << i << "]=" << (double)t1(i) << " vs matrix " << (double)ref[i]);
       if(nthreads > 1)
       {
         run(nthreads, Mn, tn);
         // only the order of the scatter-adds may differ between thread counts
         for(Index k = 0; k < P.used_elements(); ++k) VF_CHECK(std::fabs((long double)Mn.val()[k] - (long double)M1.val()[k]) <= 64.0L * eps * pmax, "intermesh: threads " << nthreads << " vs 1: value " << k << " " << (double)Mn.val()[k] << " vs " << (double)M1.val()[k]);
-        for(Index i = 0; i < ndf; ++i) VF_CHECK(std::fabs((long double)tn(i) - (long double)t1(i)) <= 64.0L * eps * (pmax * vmax * (long double)max_row_len(P)) + 1e-300L, "intermesh: threads " << nthreads << " vs 1: vector " << i);
+        if(!skip_imv) for(Index i = 0; i < ndf; ++i) VF_CHECK(std::fabs((long double)tn(i) - (long double)t1(i)) <= 64.0L * eps * (pmax * vmax * (long double)max_row_len(P)) + 1e-300L, "intermesh: threads " << nthreads << " vs 1: vector " << i);
       }
      }
     }
